@@ -7,6 +7,7 @@ from ..cfg import calls_in_node, handler_catches_all_exceptions
 from ..contain import protecting_handler
 from ..framework import stores_to_name, assigned_values
 from . import common
+from .. import exprs as X
 
 EXPLANATION = (
     "eliot/logwriter.py cannot be imported here (no Twisted) but parses, which is all a static check needs.  "
@@ -176,7 +177,8 @@ def rule_exit(chk, qa):
         return None
     sentinel_loops = set()
     for t in cfg.live:
-        if t.kind == "test" and isinstance(t.ast, ast.While) and t.ast in rd.node.body:
+        if t.kind == "test" and isinstance(t.ast, ast.While) and not any(t.ast is y for x in iter_own_nodes(rd.node) if isinstance(x, (ast.For, ast.While)) and x is not t.ast
+                                                                          for st in x.body + x.orelse for y in ast.walk(st)):
             if isinstance(t.ast.test, ast.Constant) and t.ast.test.value:
                 continue
             if is_sentinel_test(t.ast.test) == "isnot":
@@ -233,7 +235,8 @@ def rule_thread_and_contain(chk, qa, itemvars):
     chk.req(not outside and invs, "C19.thread", "ThreadedWriter:destination-invoked-only-by-the-reader", chk.where(rd),
             good="self.%s(...) is called only in _reader" % dest_attr,
             fail="the wrapped destination is called on the logging thread in %s" % [m.fq for m, n in outside] if outside else "the reader never calls the destination")
-    heads = [t for t in cfg.live if t.kind == "test" and isinstance(t.ast, ast.While) and t.ast in rd.node.body]
+    nested = {id(y) for x in iter_own_nodes(rd.node) if isinstance(x, (ast.For, ast.While)) for st in x.body + x.orelse for y in ast.walk(st)}
+    heads = [t for t in cfg.live if t.kind == "test" and isinstance(t.ast, ast.While) and id(t.ast) not in nested]
     chk.need(len(heads) == 1, "_reader: outer loop not found")
     head = heads[0]
     dn = [(n, c) for n in cfg.live for c, m in calls_in_node(n) if common.is_self_attr(c.func, dest_attr)]
@@ -339,8 +342,14 @@ def rule_stop(chk, qa, tattr):
     rng = cfg.count_range(cfg.entry, [cfg.exit], lambda x: 1 if x in pn else 0)
     if rng != (1, 1):
         problems.append("sentinel enqueued %s times per stop" % (rng,))
+    env = X.single_assignments(stop)
     for r in rets:
         v = r.ast.value
+        if isinstance(v, ast.Name) and v.id in env:
+            # `d = deferToThreadPool(...); ...; return d`: the request is made where the temporary is bound
+            bind = [n for n in cfg.live if isinstance(n.ast, ast.Assign) and n.ast.value is env[v.id]]
+            v = env[v.id]
+            r = bind[0] if bind else r
         okj = isinstance(v, ast.Call) and "deferToThread" in unparse(v.func) and any(tattr and unparse(a) == "self.%s.join" % tattr for a in v.args)
         if okj:
             # nothing may follow the callable: join() must wait without a timeout
@@ -357,6 +366,14 @@ def rule_stop(chk, qa, tattr):
         problems.append("stopService returns nothing: its completion does not wait for the queued messages")
     chk.req(not problems, "C19.stop", "ThreadedWriter.stopService:unregister-sentinel-join", chk.where(stop),
             good="unregister -> put(%s) exactly once -> return deferred(thread.join)" % sent[1], fail="; ".join(problems), sites=len(cfg.live))
+
+
+def rule_writer(chk):
+    """all rules of the threaded writer, for properties whose guarantee extends through it"""
+    qa = rule_queue(chk)
+    itemvars = rule_exit(chk, qa)
+    tattr = rule_thread_and_contain(chk, qa, itemvars)
+    rule_stop(chk, qa, tattr)
 
 
 def run(chk):
